@@ -26,7 +26,7 @@ class Call:
 
 
 def is_prim(t):
-    return t[0] in ("int", "bool", "addr", "flag")
+    return t[0] in ("int", "bool", "addr", "flag", "dec")
 
 
 def ceil32(n):
@@ -35,7 +35,7 @@ def ceil32(n):
 
 def word_to_model(w, t):
     """raw ABI word -> Coq value (out-of-range words become values that fail has_type)"""
-    if t[0] == "int":
+    if t[0] in ("int", "dec"):
         return val_coq(w - W if (t[2] and w >= W // 2) else w)
     if t[0] == "bool":
         return val_coq(bool(w)) if w in (0, 1) else val_coq(int(w))
@@ -236,7 +236,8 @@ def expected_logs(prog, events):
         if ev[0] != "log":
             continue
         name, fields = prog.events[ev[1]]
-        sig = name + "(" + ",".join(ty_abi(ft) for _, ft in fields) + ")"
+        from vlib.c01_ast import ty_sig
+        sig = name + "(" + ",".join(ty_sig(ft) for _, ft in fields) + ")"
         data = eth_abi.encode([ty_abi(ft) for _, ft in fields], [tree_to_abi(a, ft) for a, (_, ft) in zip(ev[2], fields)])
         out.append(((keccak(sig.encode()),), data))
     return out
